@@ -26,21 +26,21 @@ def run(ctx, R):
     R.not_decided = ['cluster completion order', 'serialisation of functions and data', 'numeric equality of results']
     declare(R, {**dasksib.RULES, **holds.RULES, **flow.RULES, **delivery.RULES}, RULES, FLOORS)
     M = ctx.model
-    dasksib.check_sibling_sig(ctx, R)
-    dasksib.check_registry_and_mro(ctx, R)
-    dasksib.check_scatter_gather(ctx, R)
+    R.run(dasksib.check_sibling_sig, ctx, R)
+    R.run(dasksib.check_registry_and_mro, ctx, R)
+    R.run(dasksib.check_scatter_gather, ctx, R)
     dcls = [c for c in M.nodes if c.module.name == 'streamz.dask']
     for c in dcls:
-        holds.check_class(ctx, R, c, rules={'HOLD-BEFORE-ESCAPE', 'REL-AFTER-AWAIT', 'LINEAR-HOLD', 'NO-REL-ON-FAIL'})
-    flow.check_meta_pass(ctx, R, [c for c in dcls if c.name in ('map', 'accumulate', 'starmap')])
-    flow.check_propagate(ctx, R, modules=('streamz.dask', 'streamz.core'), note_modules=())
+        R.run(holds.check_class, ctx, R, c, rules={'HOLD-BEFORE-ESCAPE', 'REL-AFTER-AWAIT', 'LINEAR-HOLD', 'NO-REL-ON-FAIL'})
+    R.run(flow.check_meta_pass, ctx, R, [c for c in dcls if c.name in ('map', 'accumulate', 'starmap')])
+    R.run(flow.check_propagate, ctx, R, modules=('streamz.dask', 'streamz.core'), note_modules=())
     # of the core classes only those that the Dask mix-ins inherit their update() from matter here: a dropped awaitable is
     # invisible locally (synchronous consumers return nothing) but loses ordering/back-pressure on Dask
     mixed = {b.name for c in dcls for b in c.mro if b.module.name == 'streamz.core' and b.name not in ('Stream', 'APIRegisterMixin')}
     for k in [k for k in R.obs if k[0] == 'PROPAGATE' and k[1].startswith('streamz.core.')
               and k[1].split('.')[2] not in mixed]:
         del R.obs[k]
-    delivery.check_emit_sig(ctx, R, dcls)
+    R.run(delivery.check_emit_sig, ctx, R, dcls)
 
 
 META['level'] += ' PROPAGATE is also evaluated on the core classes whose update() the Dask mix-ins inherit.'
